@@ -3,7 +3,7 @@
 Generated: (system: every catalogue pair through System.from_bodies / generated mu in [1e-6, 0.2] through
 System.from_mu) x (L1 | L2) x degree N; a batch of directions u on S^3 (all four components >= 0.14 in modulus)
 and a ladder of radii r_k = r0 * step^-k that is walked down until the residuals reach their rounding floor;
-four section conversions per manifold (one per section coordinate) at generated section points.
+one section conversion per section coordinate and manifold (two for N=10) at generated section points.
 
 Oracles (nothing below uses the library's energy or polynomial evaluation):
  (a) round trip   F_rt(r) = rms_u | to_cm(to_synodic(r u)) - r u |
@@ -51,6 +51,7 @@ ASSUMPTIONS = [
     "E(L_i) is evaluated at (point.position, 0); gamma = point.dynamics.gamma; C, C^-1 = point.normal_form_transform enter the tolerances only",
     "section points are constructed with the conjugate coordinate > 0 (the library solves for the non-negative branch only) and energy := own evaluation of H_cm,N at the constructed point, so the root exists by construction; root tolerance |dm| <= 1e-12 + 4 eps b + 32 eps sum|terms| / |dH/dm| (Brent xtol=1e-12 in solve_missing_coord)",
     "section tolerances on to_cm(s): 2x the measured 4-D round-trip error of the constructed point (its law is oracle (a)) + the root tolerance mapped through ||C^-1||/gamma",
+    "not asserted (outside the statement): that the synodic state is the dynamical push-forward of the CM point (the library's local->synodic map mirrors y and vx, cf. design note N-1), and the accuracy of the hyperbolic (q1,p1) offset of the state, which enters neither law below order N+1",
 ]
 logging.disable(logging.CRITICAL)
 EPS = 2.220446049250313e-16
@@ -481,7 +482,7 @@ def run(ctx):
     if ctx.tier == "quick":
         plan = [(4, 120), (6, 24)]
     else:
-        plan = [(4, 1600), (6, 480), (8, 64), (10, 16)]
+        plan = [(4, 1200), (6, 320), (8, 48), (10, 16)]
     for N, total in plan:
         # no Hypothesis shrink pass: one evaluation costs 1.5 s (N=4) .. 200 s (N=10) and the verdict payloads are already
         # reduced to the failing part (ladder without sections / one section without ladder)
